@@ -47,10 +47,10 @@ CLAIMED = {
          "Every emitted datagram is decoded with the real codec and must be exactly one well-formed one-way emitMetricBatchV2 message carrying the configured common tags; every value reported before Close was called must appear exactly once with the name, kind, value and tags it was allocated with (bucket id / range tags for buckets, ids increasing with the bounds), timestamp between construction and the return of the call, everything emitted before Close returns, every destination receiving identical datagrams. Tag sets include pairs colliding in the reporter's tag-cache hash; values are reported immediately after construction. Under injected send errors a failed datagram may be missing as a whole, never altered or duplicated. Exploration.",
          "As C12."),
  "C14": ("6/C14", "deterministic simulation: producers, Flush and 1-3 Close callers racing on a tiny queue with send faults; panic/deadlock/leak oracle (+ race-detector slice)",
-         "Seeded interleavings of Allocate/Report on shared handles, Flush and concurrent Close callers (plus calls after Close) with queue sizes 1-4 and destinations that fail or are closed mid-run; producers that keep reporting until Close has returned (they never pause); no task may panic (send on closed channel), every task completes (deadlock = no enabled task after bounded clock advances, livelock = no completion under fair scheduling), exactly one Close returns nil, nothing goes on the wire after Close returned, the reporter's goroutines have exited. Exploration.",
+         "Seeded interleavings of Allocate/Report on shared handles, Flush and concurrent Close callers (plus calls after Close) with queue sizes 1-4 and destinations that fail or are closed mid-run; producers that keep reporting until Close has returned (they never pause); no task may panic (send on closed channel), every task completes (deadlock = no enabled task after bounded clock advances; livelock = under round-robin scheduling nothing visible happens and every runnable task only spins, or Close is still waiting after the reporter has sent more than can have been admitted before Close shut the gate), exactly one Close returns nil, nothing goes on the wire after Close returned, the reporter's goroutines have ended (from the instant Close returns they do nothing but release locks and return). Exploration.",
          "As C12. The data-race clause is covered only by the -race slice (happens-before based, schedule dependent); half of its runs use the C13 and C12 workloads."),
  "C15": ("6/C15", "deterministic simulation with fault sequences: Write/WriteByte/WriteString/Flush/Close sequences with oversize writes, send errors, closed sockets and abandoned messages against a byte-buffer reference model",
-         "Seeded call sequences on the single and multi destination UDP transports with chunk sizes around the 65000 byte limit and faults at seeded positions (refused write, failing send, socket closed by the environment, writer abandoning a message after an error); each Flush must produce exactly one datagram with exactly the bytes accepted since the previous Flush and leave the buffer empty whether or not the send failed, refused writes send nothing, the next message arrives complete and alone, the multi transport fans out when no destination fails and, when one does (faults may be aimed at a single destination), never sends any destination anything but exactly one Flush's message; Close is idempotent, use after Close errors and sends nothing. fault_enumeration-style exploration of a sequential API; no interleavings are involved (the transport is not used concurrently).",
+         "Seeded call sequences on the single and multi destination UDP transports with chunk sizes around the 65000 byte limit and faults at seeded positions (refused write, failing send, socket closed by the environment, writer abandoning a message after an error); each Flush must produce exactly one datagram with exactly the bytes accepted since the previous Flush and leave the buffer empty whether or not the send failed, refused writes send nothing, the next message arrives complete and alone, the multi transport fans out when no destination fails and, when one does (faults may be aimed at a single destination), never sends any destination anything but exactly one Flush's message; Close is idempotent, use after Close errors and sends nothing. A share of the runs (2% quick, 4% thorough) puts the real M3 reporter on the real transport, lets a run of consecutive sends fail while several packets' worth of samples are reported, and requires everything reported after the last failed send to be emitted (\"the M3 reporter keeps emitting later batches\"). fault_enumeration-style exploration of a sequential API; interleavings matter only in the reporter runs.",
          "The socket is a stub (errors are 'this send returns an error'). Known finding D9 (stale prefix after an abandoned message) is recognised by its signature and reported as KNOWN-FINDING."),
  "C17": ("6/C17", "deterministic simulation: record histories through a scope into the real Prometheus reporter and a private registry, Gather compared with a reference ledger; separate conflict profile with returning and panicking error callbacks",
          "Concurrent tasks record on counters, gauges, timers (summary and histogram flavour) and histograms with strictly increasing finite bounds (samples on the bounds) while report passes run; after the final pass Gather must show the ledger sum per counter, the last update per gauge, cumulative bucket counts equal to the number of samples <= each bound (durations in seconds) and the sample total, the number of recorded values per timer, one family per name with one series per tag-value set, every histogram exposed with exactly its own bounds (also when the caller reuses its bucket slice afterwards). Conflict profile: first uses reusing a name across kinds or with other tag keys, with callbacks given via Options and via Configuration.OnError that return, log or panic; whenever the callback returns the caller must hold a usable metric, and no panic may be a runtime error (nil dereference) or come from anywhere but the configured callback. Exploration; value agreement is input-dominated, the simulator adds concurrent first use, record||report and the callback/panic paths.",
